@@ -68,7 +68,7 @@ def gen(rng, tier):
             "locked_at": rng.choice([None, None, None, 0, 1, 2, 3, 4, 5, 6]),
             "explicit_dialect": rng.random() < 0.2, "failed_update_probe": rng.random() < 0.2,
             # the same process has already built and opened a database of ANOTHER annotation under this very file name
-            "prior_tenant": rng.random() < 0.2,
+            "prior_tenant": rng.choice([False, False, False, False, False, False, False, "dropped", "dropped", "kept"]),
             # another annotation is read by a second iterator at the same time (zip-style), in this schedule
             "companion": [rng.randrange(2) for _ in range(rng.randint(1, 12))] if rng.random() < 0.25 else None,
             "open_pragmas": rng.choice([None, None, {"reverse_unordered_selects": "ON"}, {"cache_size": 5, "temp_store": 2},
@@ -168,7 +168,8 @@ def run(case):
                 if pt["ok"]:
                     call(n, {"op": "dump", "h": "prior", "relations": False})
                     call(n, {"op": "open", "h": "prior2", "db": "a.db"})
-                    call(n, {"op": "drop", "h": "prior"})
+                    if case["prior_tenant"] != "kept":
+                        call(n, {"op": "drop", "h": "prior"})
                     call(n, {"op": "drop", "h": "prior2"})
                     call(n, {"op": "gc"})
                     ckw = dict(ckw, force=True)
@@ -203,6 +204,17 @@ def run(case):
                     if ur["ok"]:
                         flines = flines + [uline]
                         probes["update_between_import_and_reopen"] = 1
+                if case.get("prior_tenant") == "kept" and probes.get("file_name_previously_held_another_annotation"):
+                    # the handle opened on the PREVIOUS database of this file name is still around and is used for an update now:
+                    # the directives of the file as it is now must stay
+                    uline2 = ('chr1\tsrc\texon\t4\t8\t.\t+\t.\tID=stale1' if case["fmt"] == "gff3" else
+                              'chr1\tsrc\texon\t4\t8\t.\t+\t.\tgene_id "SG"; transcript_id "ST";')
+                    su = call(n, {"op": "update", "h": "prior", "data": {"form": "string", "text": uline2 + "\n"},
+                                  "kw": {"merge_strategy": "create_unique", "make_backup": False, "disable_infer_genes": True,
+                                         "disable_infer_transcripts": True}})
+                    if su["ok"]:
+                        flines = flines + [uline2]
+                        probes["update_through_handle_of_the_previous_tenant"] = 1
                 if case.get("failed_update_probe") and not case.get("update_after"):
                     from sim.probes import failed_update_probe
                     failed_update_probe(w, call, n, "h", "a.db", case["fmt"] == "gtf", V, viol, "C14.db", probes)
